@@ -28,7 +28,7 @@ _G = {}
 
 def _init(prog):
     _G['prog'] = prog
-    _G['pe'] = PEval(prog, sticky=('sf.format', 'file.mode', 'sf.channels', 'sf.samplerate'), effects=Effects(prog))
+    _G['pe'] = PEval(prog, sticky=('sf.format', 'file.mode', 'sf.channels', 'sf.samplerate', 'endian'), effects=Effects(prog))
 
 
 def _table_chunk(args):
